@@ -519,7 +519,10 @@ class World(object):
         Set an initial step for simulator *sid* at time *time* (default=0).
         """
         sim = self.sims[sid]
-        sim.next_steps = [TieredTime(time) + sim.from_world_time]
+        # Add the step to the ones already scheduled (step 0 of a
+        # time-based or hybrid simulator, earlier initial events)
+        # instead of replacing them.
+        sim.schedule_step(TieredTime(time) + sim.from_world_time)
 
     def get_data(
         self,
